@@ -307,7 +307,7 @@ theorem rev_lookup_inverts (blks : List Blk) (tail : List Stmt) (src : List Char
     (∀ l a, t.lookupLine l = some a → t.revLookupLine a = some l) := by
   have hinj := lookup_line_injective blks tail src t hwf ht h hl hws hclear hsz hstr
   refine ⟨hinj, fun l a hla => ?_⟩
-  obtain ⟨_, _, _, _, _, _, m, hm, hch⟩ := final_vector _ src t h hl
+  obtain ⟨_, _, _, _, _, _, m, hm, hch, _⟩ := final_vector _ src t h hl
   have hget : ∀ k, t.lookupLine k = m.get k := by intro k; simp [SymTab.lookupLine, hm]
   unfold SymTab.revLookupLine
   rw [hm]
